@@ -158,6 +158,48 @@ def psd_case(args):
     return _guard(psd_case_impl, args)
 
 
+def fd_coupled_impl(args):
+    """FreqDirect.fsolve, coupled loop: NON-symmetric m, b, k (2x2, all entries symbolic), frequency vector starting at 0 Hz"""
+    from vc import symla, npx
+    cls, mform, zero_first = args
+    fd = alg.load_module(report.REPO, FD)
+    su = alg.load_module(report.REPO, SU)
+    util = alg.load_module(report.REPO, UT)
+    base = alg.load_module(report.REPO, BASE)
+    n = 2
+    M = sp.Matrix(n, n, lambda i, j: sp.Symbol("M%d%d" % (i, j), real=True)) if mform == "matrix" else sp.eye(n)
+    Bm = sp.Matrix(n, n, lambda i, j: sp.Symbol("B%d%d" % (i, j), real=True))
+    Km = sp.Matrix(n, n, lambda i, j: sp.Symbol("K%d%d" % (min(i, j), max(i, j)), real=True))      # symmetric stiffness, non-symmetric damping/mass
+    f1, f2 = sp.symbols("f1 f2", positive=True)
+    freqs = [0, f1, f2] if zero_first else [f1, f2]
+    F = sp.Matrix(n, len(freqs), lambda i, j: sp.Symbol("Fr%d_%d" % (i, j), real=True) + I_ * sp.Symbol("Fi%d_%d" % (i, j), real=True))
+    reg = alg.HashRegime("fd-coupled")
+    extra = {mm.__name__: {"np": npx.NPX(), "la": symla} for mm in (fd, su, util, base)}
+    with alg.Multi([fd, su, util, base], reg, extra):
+        ts = fd.FreqDirect(None if mform == "none" else symla.toarr(M), symla.toarr(Bm), symla.toarr(Km), rb=[])
+        sol = ts.fsolve(symla.toarr(F), alg.sym_array(freqs))
+    fails, nchk = [], 0
+
+    def iszero(e):
+        e = sp.expand(e)
+        return e == 0 or sp.expand(sp.numer(sp.together(e))) == 0
+    for j, f in enumerate(freqs):
+        W = 2 * sp.pi * f
+        D = sp.Matrix(n, 1, lambda i, _: alg.expr_of(sol.d[i, j]))
+        r = (-W ** 2 * M + I_ * W * Bm + Km) * D - F[:, j]
+        for i in range(n):
+            nchk += 3
+            if not iszero(r[i]):
+                fails.append(dict(item="(-W^2 M + i W B + K) d == F, row %d, frequency %s" % (i, f), detail={"residual_numerator_terms": len(sp.Add.make_args(sp.expand(sp.numer(sp.together(r[i])))))}))
+            if not iszero(alg.expr_of(sol.v[i, j]) - I_ * W * D[i]) or not iszero(alg.expr_of(sol.a[i, j]) + W ** 2 * D[i]):
+                fails.append(dict(item="v == iWd, a == -W^2 d, row %d, frequency %s" % (i, f), detail={}))
+    return args, nchk, fails
+
+
+def fd_coupled_case(args):
+    return _guard(fd_coupled_impl, args)
+
+
 def concrete(repo, seed, n):
     """bounded float checks: coupled systems (complex modes via scipy eig), pre_eig, SolveUnc vs FreqDirect, residual of the dynamic-stiffness equation"""
     sys.path.insert(0, repo)
@@ -229,9 +271,10 @@ def run(tier, seed):
     P = report.pool()
     r1 = P.map_async(unc_case, cases, chunksize=2)
     r2 = P.map_async(psd_case, pcases, chunksize=1)
+    r3 = P.map_async(fd_coupled_case, [("FreqDirect", mf, z0) for mf in ("matrix", "none") for z0 in (True, False)], chunksize=1)
     vs = []
     allfails = []
-    for tag, rr in (("fsolve", r1), ("solvepsd", r2)):
+    for tag, rr in (("fsolve", r1), ("solvepsd", r2), ("FreqDirect.fsolve[coupled, non-symmetric m/b, symmetric k]", r3)):
         for args, n, fails in rr.get():
             name = "%s%s::all %d output entries equal the specification" % (tag, args, n)
             und_ = [f_ for f_ in fails if f_.get("undecided")]
